@@ -1,6 +1,7 @@
 import SphericalVerif.Gen.MethodKern
 import SphericalVerif.Props.Footprint
 import SphericalVerif.Props.C09
+import SphericalVerif.Props.C08
 /-! GenMethod — **the wiring of the public methods, from the method text**.
 
     `Gen/MethodKern.lean` is regenerated on every run from the bodies of `Wigner.D`, `Wigner.sYlm` and the Horner branches
@@ -186,6 +187,25 @@ theorem D_rotor_pure (L : Nat) (ell_min : Int) (zI aI gI DI : Nat) (a b d g h : 
     GenChain.gen_D_chain L ell_min zI aI gI DI a b d g h ht imsqrt R st₁ (fun _ => R 0) h0 ell mp m h1 hl (by omega) (by omega) (by omega) (by omega),
     GenChain.gen_D_chain L ell_min zI aI gI DI a b d g h ht imsqrt R st₂ (fun _ => R 0) h0 ell mp m h1 hl (by omega) (by omega) (by omega) (by omega)]
   exact C09.objD_pure L _ _ _ _ _ _ imsqrt ell mp m hl hmp hm
+
+/-- **C08 for the generated `Wigner.D`**: two calculators of different size (`ell_max` `L₁`, `L₂`), different `ell_min`, each with its own
+    tables, its own arrays (possibly on memories of different representation) and its own history, leave the same value — every arithmetic,
+    bit for bit — at the position each one's own `WignerDindex` gives to `(ℓ, m', m)`, for every `ℓ` both of them store -/
+theorem D_rotor_size_indep {φ' : Type} [FMem φ' α] [LawfulFMem φ' α] (L₁ L₂ : Nat) (e₁ e₂ : Int) (zI aI gI DI zI' aI' gI' DI' : Nat)
+    (a₁ b₁ d₁ g₁ h₁ a₂ b₂ d₂ g₂ h₂ : Int → α) (ht₁ : TabOK L₁ a₁ b₁ d₁ g₁ h₁) (ht₂ : TabOK L₂ a₂ b₂ d₂ g₂ h₂) (imsqrt : Cx α → α)
+    (R : Int → α) (st₁ : φ) (st₂ : φ') (h01 : 0 ≤ e₁) (h02 : 0 ≤ e₂)
+    (hz : 2 < zI) (ha : 2 < aI) (hg : 2 < gI) (hza : zI ≠ aI) (hzg : zI ≠ gI) (hag : aI ≠ gI)
+    (hz' : 2 < zI') (ha' : 2 < aI') (hg' : 2 < gI') (hza' : zI' ≠ aI') (hzg' : zI' ≠ gI') (hag' : aI' ≠ gI')
+    (ell : Nat) (mp m : Int) (h11 : e₁ ≤ ell) (h12 : e₂ ≤ ell) (hl₁ : ell ≤ L₁) (hl₂ : ell ≤ L₂) (hmp : mp.natAbs ≤ ell) (hm : m.natAbs ≤ ell) :
+    frdC (α := α) (Gen.Wigner_D_rotor (α := α) R zI g₁ h₁ (L₁ : Int) (L₁ : Int) a₁ b₁ d₁ idW idV idX DI aI imsqrt gI e₁ st₁) DI
+        (WignerDindex (ell : Int) mp m e₁ (-1))
+      = frdC (α := α) (Gen.Wigner_D_rotor (α := α) R zI' g₂ h₂ (L₂ : Int) (L₂ : Int) a₂ b₂ d₂ idW idV idX DI' aI' imsqrt gI' e₂ st₂) DI'
+        (WignerDindex (ell : Int) mp m e₂ (-1)) := by
+  rw [D_rotor_eq L₁ e₁ zI aI gI DI a₁ b₁ d₁ g₁ h₁ imsqrt R st₁ hz ha hg hza hzg hag,
+    D_rotor_eq L₂ e₂ zI' aI' gI' DI' a₂ b₂ d₂ g₂ h₂ imsqrt R st₂ hz' ha' hg' hza' hzg' hag',
+    GenChain.gen_D_chain L₁ e₁ zI aI gI DI a₁ b₁ d₁ g₁ h₁ ht₁ imsqrt R st₁ (fun _ => R 0) h01 ell mp m h11 hl₁ (by omega) (by omega) (by omega) (by omega),
+    GenChain.gen_D_chain L₂ e₂ zI' aI' gI' DI' a₂ b₂ d₂ g₂ h₂ ht₂ imsqrt R st₂ (fun _ => R 0) h02 ell mp m h12 hl₂ (by omega) (by omega) (by omega) (by omega)]
+  exact C08.objD_cfg_indep L₁ L₂ _ _ _ _ _ _ imsqrt ell mp m hl₁ hl₂ hmp hm
 
 /-- **C17 for the generated `Wigner.D`**: after the whole loop over `N` rotors, row `i` of the output holds exactly (every arithmetic: bit
     for bit) what the single-rotor body writes for rotor `i` on ANY memory `st'` — in particular on a fresh workspace.  Rows are
